@@ -7,7 +7,7 @@ prop, family, what, shown = sys.argv[1:5]
 prefix = sys.argv[5] if len(sys.argv) > 5 else ""
 p = os.path.join(HERE, "known_findings.json")
 d = json.load(open(p))
-have = {(e["property"], e["rule"], e["construct"]) for e in d["findings"]}
+have = {(e["property"], e["rule"], e.get("construct")) for e in d["findings"]}
 n = 0
 for f in sorted(glob.glob(os.path.join(HERE, "out", prop, "*.json"))):
     o = json.load(open(f))
